@@ -41,6 +41,8 @@ pub enum VRes {
     Val(u64),
     Snapshot(Vec<(Tuple, u64)>),
     Keys(Vec<Tuple>),
+    /// model only: the operation cannot take effect here (a map mutation inside an open collection)
+    Blocked,
 }
 
 #[derive(Clone, PartialEq, Eq, Hash, Default)]
@@ -49,6 +51,10 @@ struct VModel {
     val: Vec<u64>,
     bind: BTreeMap<usize, usize>,
     cbind: BTreeMap<(usize, Tuple), usize>,
+    /// collections whose key set has been read but whose per-child values have not all been read yet:
+    /// no operation that changes the map may take effect in between (the library holds the map's read
+    /// lock for the whole collection; only updates through handles are concurrent with it)
+    open: BTreeMap<usize, usize>,
 }
 
 impl Model for VModel {
@@ -60,6 +66,9 @@ impl Model for VModel {
                 let c = match self.map.get(t) {
                     Some(c) => *c,
                     None => {
+                        if !self.open.is_empty() {
+                            return VRes::Blocked;
+                        }
                         self.val.push(0);
                         self.map.insert(t.clone(), self.val.len() - 1);
                         self.val.len() - 1
@@ -75,8 +84,16 @@ impl Model for VModel {
                 VRes::Unit
             }
             VOp::Get { hid } => VRes::Val(self.bind.get(hid).map_or(u64::MAX, |c| self.val[*c])),
-            VOp::Remove { t, .. } => VRes::Ok(self.map.remove(t).is_some()),
+            VOp::Remove { t, .. } => {
+                if self.map.contains_key(t) && !self.open.is_empty() {
+                    return VRes::Blocked;
+                }
+                VRes::Ok(self.map.remove(t).is_some())
+            }
             VOp::Reset => {
+                if !self.map.is_empty() && !self.open.is_empty() {
+                    return VRes::Blocked;
+                }
                 self.map.clear();
                 VRes::Unit
             }
@@ -85,9 +102,21 @@ impl Model for VModel {
                 for (t, c) in &self.map {
                     self.cbind.insert((*cid, t.clone()), *c);
                 }
+                if !self.map.is_empty() {
+                    self.open.insert(*cid, self.map.len());
+                }
                 VRes::Keys(self.map.keys().cloned().collect())
             }
-            VOp::CollectVal { cid, t } => VRes::Val(self.cbind.get(&(*cid, t.clone())).map_or(u64::MAX, |c| self.val[*c])),
+            VOp::CollectVal { cid, t } => {
+                let r = VRes::Val(self.cbind.get(&(*cid, t.clone())).map_or(u64::MAX, |c| self.val[*c]));
+                if let Some(n) = self.open.get_mut(cid) {
+                    *n -= 1;
+                    if *n == 0 {
+                        self.open.remove(cid);
+                    }
+                }
+                r
+            }
             VOp::WrongArity => VRes::Ok(false),
         }
     }
@@ -237,7 +266,10 @@ impl Property for C10 {
          (sequential history). Operations: get-or-create (slice or map form) binding a handle, inc_by(2^i) / get through a handle, \
          remove (slice or map form), reset, collect, a wrong-arity request. Oracle: exhaustive linearizability search against the map \
          model of DESIGN.md appendix C (tuple -> child, child -> value, handle -> child; handles of removed children stay usable; \
-         re-created children start from zero; collect shows every tuple once) + final-state check after quiescence. Non-trivial: two \
+         re-created children start from zero; collect shows every tuple once; a concurrent collect is judged as one atomic read of \
+         the key set followed by one read per listed child, and no create / remove / reset may take effect between the key read and \
+         the last child read - updates through handles may) + final-state check after quiescence; after the generated tier every \
+         schedule with at most 2 (thorough: 3) pre-emptions of a sample of small generated programs is enumerated. Non-trivial: two \
          get-or-create operations on one tuple overlap in time, or a remove/reset overlaps a get-or-create of the same tuple; for \
          sequential histories: a child is re-created after removal and a handle to the removed child is used afterwards. \
          Distinct = decoded choices."
@@ -250,6 +282,10 @@ impl Property for C10 {
             Tier::Quick => Budget { cases: 30000, min_len: 8, max_len: 260 },
             Tier::Thorough => Budget { cases: 1500000, min_len: 8, max_len: 320 },
         }
+    }
+
+    fn post(&self, tier: Tier, seed: u64, stats: &mut crate::engine::Stats) -> Result<(), (String, String, Vec<u8>)> {
+        crate::exhaust::bounded_enumeration(self, tier, seed, stats)
     }
 
     fn run(&self, src: &mut Src, rep: &mut Report) -> Verdict {
